@@ -21,7 +21,7 @@ Oracle = the *statement* in exact rational arithmetic (fractions.Fraction), not 
   a computed dimension d is "within one cell" of an exact value e iff |d - max(e, 1)| < 1.
   FIT: <= frame on both axes, touches the frame on some axis whose free dimension is within one cell of the exact
   value for that frame dimension.  AUTO == (what ORIGINAL gives) if ow <= frame px width and oh*pr <= frame px
-  height, == (what FIT gives) otherwise; when the scaled height exceeds the frame by no more than half a pixel
+  height, == (what FIT gives) otherwise; when the scaled height exceeds the frame by no more than half a pixel (+1e-9)
   (it rounds to the frame height in whole pixels) either answer is accepted (counted as auto_rounding_zone).
 """
 from __future__ import annotations
@@ -42,6 +42,12 @@ _MASK = (1 << 63) - 1
 
 
 # ------------------------------------------------------------------------------------------ oracle
+# A cell ratio such as 0.45 is a binary float a hair above the decimal the user wrote; exactly AT the half-pixel
+# boundary of the AUTO rounding zone that hair decides between "zone" and "FIT only" in exact arithmetic while the
+# library's float product is exactly x.5.  The zone therefore extends by this much (in pixels).
+_FLOAT_NOISE = F(1, 10**9)
+
+
 class Geo:
     """Exact geometry of one (family, terminal, cell, effective cell ratio, source)."""
 
@@ -139,7 +145,7 @@ def judge(geo, mode, frame, got, ref_original=None, ref_fit=None, counters=None)
         sh = geo.oh * geo.pr
         if geo.ow <= fw and sh <= fh:
             want = ("ORIGINAL",)
-        elif geo.ow <= fw and sh - fh <= F(1, 2):
+        elif geo.ow <= fw and sh - fh <= F(1, 2) + _FLOAT_NOISE:
             want = ("ORIGINAL", "FIT")
             if counters is not None:
                 counters.inc("auto_rounding_zone")
